@@ -34,8 +34,8 @@ var propMeta = map[string]meta{
 		}, commonAssume...),
 	},
 	"C13": {
-		rule:         "one evaluation = one simulated query history on long-lived engines (DNSEngine, Engine, NetworkEngine over one storage): the history is planned first (seeded lists, 1..400 operations mixing DNS/web/MatchAll/Match/cosmetic queries with neighbours that differ in exactly one field - client name/IP/tags/record type, content type, URL path, source page, cosmetic host - and with repeats and rare request shapes (upper case, trailing dot, IP literals, 60-byte labels, URLs over 4 KiB); derived evaluations (DNSRewrites, DNSRewritesAll, GetDNSBasicRule, GetBasicResult, GetCosmeticOption, NewMatchingResult) on any of the last 16 results; request-pool flushes by double GC; cold or pre-warmed cache; in one run of eight a flood of 150-1500 distinct requests whose first dozen are asked again); then the fresh answer of every distinct request is computed in ANOTHER PROCESS, each on a brand-new storage and engine, in reverse order of first appearance; then the history is executed. After every query the answer must equal the fresh one, after every step every retained earlier result must equal its snapshot, the caller's request object must be unchanged, cache entries never change. Non-trivial = >= 3 queries, at least one repeat or one-field-apart pair, and at least one derived evaluation on an old result. Distinct = distinct hash of the history's (request, answer) sequence.",
-		stateMeasure: "HyperLogLog estimate over per-step hidden states = (cache key-set hash, pool flushed-or-not since last DNS query, number of retained results)",
+		rule:         "one evaluation = one simulated query history on long-lived engines (DNSEngine, Engine, NetworkEngine over one storage): the history is planned first (seeded lists, 1..400 operations mixing DNS/web/MatchAll/Match/cosmetic queries with neighbours that differ in exactly one field - client name/IP/tags/record type, content type, URL path, source page, cosmetic host - and with repeats and rare request shapes (upper case, trailing dot, IP literals, 60-byte labels, URLs over 4 KiB); derived evaluations (DNSRewrites, DNSRewritesAll, GetDNSBasicRule, GetBasicResult, GetCosmeticOption, NewMatchingResult) on any of the last 16 results; request-pool flushes by double GC; cold or pre-warmed cache; in one run of eight a flood of 150-1500 distinct requests whose first dozen are asked again); then the fresh answer of every distinct request is computed in ANOTHER PROCESS, each on a brand-new storage and engine, in reverse order of first appearance; then the history is executed. After every query the answer must equal the fresh one, after every step every retained earlier result must equal its snapshot, the input fields of the caller's request object must be unchanged. Non-trivial = >= 3 queries, at least one repeat or one-field-apart pair, and at least one derived evaluation on an old result. Distinct = distinct hash of the history's (request, answer) sequence.",
+		stateMeasure: "HyperLogLog estimate over per-step hidden states = (rule-cache size, pool flushed-or-not since last DNS query, number of retained results, queries so far)",
 		real:         commonReal,
 		stub:         []string{"none"},
 		assumptions: append([]string{
